@@ -68,13 +68,13 @@ def hasBlankLine : Bytes → Bool
   | _ :: rest => hasBlankLine rest
   | [] => false
 
-def runReq (ps : List (Bytes × Bytes)) (body : Bytes) (impl : String) : Ans :=
+def runReq (ps : List (Bytes × Bytes)) (body sent : Bytes) (impl : String) : Ans :=
   let implBytes := if impl.startsWith "PANIC" then none else unrle impl
   let dec := implBytes.bind decodeRequest
   let ord := match dec with
     | some r => reorder ps (r.pairs.map (·.1))
     | none => ps
-  let model := match encodeRequest ord body with
+  let model := match encodeRequest ord sent with
     | some bs => rle bs
     | none =>
       match ord.find? (fun p => panics p.1 p.2) with
@@ -94,7 +94,7 @@ def runReq (ps : List (Bytes × Bytes)) (body : Bytes) (impl : String) : Ans :=
     else match dec with
       | some r =>
         if r.pairs == ord && r.body == body then "ok"
-        else if r.body != body then "FAIL:body"
+        else if r.body != body then (if sent != body then "FAIL:body-cut-at-empty-read" else "FAIL:body")
         else if willTrunc && r.pairs == ord.map truncPair then "FAIL:value-truncated"
         else "FAIL:params"
       | none => "FAIL:undecodable"
@@ -156,9 +156,87 @@ def isInfix (p : Bytes) : Bytes → Bool
 
 def alookup (m : List (Bytes × Bytes)) (k : Bytes) : Option Bytes := (m.find? (fun p => p.1 == k)).map (·.2)
 
-def runRT (i : RtIn) (body : Bytes) (impl : String) : Ans :=
+def bytesLt : Bytes → Bytes → Bool
+  | [], [] => false
+  | [], _ => true
+  | _, [] => false
+  | a :: as, b :: bs => if a < b then true else if a > b then false else bytesLt as bs
+
+def insertSorted (x : Bytes × List Bytes) : List (Bytes × List Bytes) → List (Bytes × List Bytes)
+  | [] => [x]
+  | y :: ys => if bytesLt x.1 y.1 then x :: y :: ys else y :: insertSorted x ys
+
+def renderCgi : CgiResult → String
+  | .err => "E"
+  | .unmodelled => "?"
+  | .resp r =>
+    let hs := (r.hdrs.foldl (fun acc h => insertSorted h acc) []).map fun h =>
+      hexField h.1 ++ "=" ++ ",".intercalate (h.2.map hexField)
+    let j (xs : List String) (sep : String) : String := if xs.isEmpty then "-" else sep.intercalate xs
+    toString r.code ++ "|" ++ hexField r.status ++ "|" ++ j hs ";" ++ "|" ++ toString r.contentLength ++ "|" ++
+      j (r.te.map hexField) "," ++ "|" ++ rle r.body
+
+def cannedReply : Bytes :=
+  frame 6 1 [83, 116, 97, 116, 117, 115, 58, 32, 50, 48, 49, 32, 67, 114, 101, 97, 116, 101, 100, 13, 10, 67, 111, 110, 116, 101, 110, 116, 45, 84, 121, 112, 101, 58, 32, 116, 101, 120, 116, 47, 112, 108, 97, 105, 110, 13, 10, 13, 10, 104, 101, 108, 108, 111] ++ frame 6 1 [] ++ frame 3 1 [0, 0, 0, 0, 0, 0, 0, 0]
+
+def parseSizes (s : String) : List Nat :=
+  if s == "-" then []
+  else
+    let sc := if s.endsWith "e" then (s.dropEnd 1).toString else s
+    (sc.splitOn ".").filterMap (·.toNat?)
+
+def rerrStr : RErr → String
+  | .nil => "nil" | .eof => "eof" | .short => "short" | .ver => "ver"
+
+def runRd (conn : Bytes) (sizes : List Nat) (impl : String) : Ans :=
+  let (steps, data) := readSteps conn sizes
+  let model := if steps.isEmpty then "-|-"
+    else ",".intercalate (steps.map fun p => toString p.1 ++ ":" ++ rerrStr p.2) ++ "|" ++ rle data
+  -- SPEC: up to the first error the calls deliver a prefix of the application's STDOUT stream, never more than asked;
+  -- if they reach the end, it is a clean EOF after exactly that stream
+  let verdict : String × List String := match parse conn with
+    | some rs =>
+      if hasEnd rs then
+        let want := stdoutOf rs
+        let hasErr := rs.any (fun r => r.typ == 7 && r.content.length != 0)
+        let hasOther := rs.any (fun r => r.typ != 7 && r.typ != 6 && r.typ != 3 && r.content.length != 0)
+        match impl.splitOn "|" with
+        | [st, d] =>
+          let stp := if st == "-" then [] else (st.splitOn ",").map fun x => match x.splitOn ":" with
+            | [n, e] => (n.toNat?.getD 0, e)
+            | _ => (0, "bad")
+          let okSteps := stp.takeWhile (fun p => p.2 == "nil")
+          let firstErr := (stp.dropWhile (fun p => p.2 == "nil")).head?
+          let nOk := okSteps.foldl (fun a p => a + p.1) 0
+          let got := ((unrle d).getD []).take nOk
+          let sizesOk := (stp.zip sizes).all (fun p => p.1.1 ≤ p.2)
+          let good := sizesOk && got.isPrefixOf want && (match firstErr with
+            | none => true
+            | some (_, e) => e == "eof" && got == want)
+          if good then ("ok", ["nt"])
+          else if hasErr then ("FAIL:stderr-in-response", ["nt", "stderr"])
+          else if hasOther then ("FAIL:nonstdout-in-response", ["nt"])
+          else ("FAIL:read-contract", ["nt"])
+        | _ => ("FAIL:result", ["nt"])
+      else ("skip", ["no-end"])
+    | none => ("skip", ["malformed"])
+  { model := model, verdict := verdict.1, tags := ["rd"] ++ verdict.2 }
+
+def runSw (t : Nat) (p : Bytes) (impl : String) : Ans :=
+  let bytes := ((streamWrite p).map (frame (UInt8.ofNat t) 1)).flatten
+  let model := toString p.length ++ ":nil " ++ rle bytes
+  let verdict := match impl.splitOn " " with
+    | [ne, b] =>
+      match (unrle b).bind parse with
+      | some rs => if ne == toString p.length ++ ":nil" && rs.all (fun r => r.typ.toNat == t && r.id == 1) &&
+          (rs.map (·.content)).flatten == p then "ok" else "FAIL:stream-write"
+      | none => "FAIL:stream-write"
+    | _ => "FAIL:stream-write"
+  { model := model, verdict := verdict, tags := ["sw"] ++ (if p.length > maxWrite then ["nt"] else []) }
+
+def runRT (i : RtIn) (body : Bytes) (reply : Bytes) (impl : String) : Ans :=
   match impl.splitOn " " with
-  | [ib, st, bd] =>
+  | [ib, dump] =>
     let dec := (unrle ib).bind decodeRequest
     let cands := [envPairs i, envPairs { i with hdrs := i.hdrs.reverse }]
     let keysOf := match dec with
@@ -167,9 +245,27 @@ def runRT (i : RtIn) (body : Bytes) (impl : String) : Ans :=
     let ord := match dec with
       | some r => ((cands.map (fun c => reorder c keysOf)).find? (fun c => c == r.pairs)).getD (reorder (envPairs i) keysOf)
       | none => envPairs i
+    -- the response: model = readResponse over what the code's reader delivers; SPEC = readResponse over the STDOUT stream
+    let (stream, e) := readAll reply
+    let mresp := if e == End.eof then readResponse stream else CgiResult.unmodelled
+    let modelled := match mresp with
+      | .unmodelled => false
+      | _ => true
+    let mdump := if modelled then renderCgi mresp else dump
+    let specDump : Option String := match parse reply with
+      | some rs => if hasEnd rs then (match readResponse (stdoutOf rs) with
+          | .unmodelled => none
+          | r => some (renderCgi r)) else none
+      | none => none
+    let rHasErr := match parse reply with
+      | some rs => rs.any (fun r => r.typ == 7 && r.content.length != 0)
+      | none => false
+    let respBad := modelled && (match specDump with
+      | some sd => sd != dump
+      | none => false)
     let model := (match encodeRequest ord body with
       | some bs => rle bs
-      | none => "PANIC") ++ " 201 68656c6c6f"
+      | none => "PANIC") ++ " " ++ mdump
     let overridden (k : Bytes) : Bool := i.envVars.any (fun p => upper p.1 == k)
     let verdict : String := match dec with
       | none => "FAIL:undecodable"
@@ -196,14 +292,14 @@ def runRT (i : RtIn) (body : Bytes) (impl : String) : Ans :=
         else if oxy then "FAIL:httpoxy"
         else if protBad then "FAIL:protected-var"
         else if lost then "FAIL:header-lost"
-        else if st != "201" || bd != "68656c6c6f" then "FAIL:response"
+        else if respBad then (if rHasErr then "FAIL:stderr-in-response" else "FAIL:response")
         else if clBad then (if i.contentLength < 0 then "FAIL:content-length-negative" else "FAIL:content-length")
         else if piComma && !overridden kPATH_INFO then "FAIL:path-info-comma"
         else "ok"
     let hasProxy := i.hdrs.any (fun h => dashUnd (upper h.1) == sPROXY)
     let collide := i.hdrs.any (fun h => i.hdrs.any (fun g => g.1 != h.1 && dashUnd (upper g.1) == dashUnd (upper h.1)))
     { model := model, verdict := verdict
-      tags := ["rt", "nt"] ++ (if hasProxy then ["proxy-hdr"] else []) ++ (if collide then ["collide"] else [])
+      tags := ["rt", "nt"] ++ (if modelled then ["resp-modelled"] else []) ++ (if hasProxy then ["proxy-hdr"] else []) ++ (if collide then ["collide"] else [])
         ++ (if i.envVars.isEmpty then [] else ["envvars"]) ++ (if i.contentLength < 0 then ["cl-neg"] else []) }
   | _ => { model := "rt-result", verdict := "FAIL:result", tags := ["rt"] }
 
@@ -211,15 +307,33 @@ def run (op impl : String) : Ans :=
   match op.splitOn " " with
   | ["req", p, b, _rk] =>
     match parsePairs p, unrle b with
-    | some ps, some body => runReq ps body impl
+    | some ps, some body =>
+      let sent := if _rk.startsWith "s:" then bodyDelivered body (parseSizes (_rk.drop 2).toString) else body
+      let a := runReq ps body sent impl
+      if _rk.startsWith "s:" then { a with tags := a.tags ++ ["body-script"] } else a
+    | _, _ => { model := "bad-op", verdict := "skip" }
+  | ["rd", c, _cs, szs] =>
+    match unrle c with
+    | some conn => runRd conn (parseSizes szs) impl
+    | none => { model := "bad-op", verdict := "skip" }
+  | ["sw", t, b] =>
+    match t.toNat?, unrle b with
+    | some t, some p => runSw t p impl
     | _, _ => { model := "bad-op", verdict := "skip" }
   | ["rt", me, rem, ho, pa, rq, pr, sc, cl, ro, ev, hd, b, sf, pij, rh, rp, ru] =>
     match [me, rem, ho, pa, rq, pr, sc, ro, sf, pij, rh, rp, ru].mapM hexB, cl.toInt?, parseEnvVars ev, parseHdrs hd, unrle b with
     | some [me, rem, ho, pa, rq, pr, sc, ro, sf, pij, rh, rp, ru], some cl, some ev, some hd, some body =>
       runRT { method := me, remote := rem, host := ho, path := pa, rawQuery := rq, proto := pr, scheme := sc,
               contentLength := cl, root := ro, envVars := ev, hdrs := hd, scriptFilename := sf, pathInfoJoin := pij,
-              reqHost := rh, reqPort := rp, requestURI := ru } body impl
+              reqHost := rh, reqPort := rp, requestURI := ru } body cannedReply impl
     | _, _, _, _, _ => { model := "bad-op", verdict := "skip" }
+  | ["rt", me, rem, ho, pa, rq, pr, sc, cl, ro, ev, hd, b, sf, pij, rh, rp, ru, rep] =>
+    match [me, rem, ho, pa, rq, pr, sc, ro, sf, pij, rh, rp, ru].mapM hexB, cl.toInt?, parseEnvVars ev, parseHdrs hd, unrle b, (if rep == "-" then some cannedReply else unrle rep) with
+    | some [me, rem, ho, pa, rq, pr, sc, ro, sf, pij, rh, rp, ru], some cl, some ev, some hd, some body, some reply =>
+      runRT { method := me, remote := rem, host := ho, path := pa, rawQuery := rq, proto := pr, scheme := sc,
+              contentLength := cl, root := ro, envVars := ev, hdrs := hd, scriptFilename := sf, pathInfoJoin := pij,
+              reqHost := rh, reqPort := rp, requestURI := ru } body reply impl
+    | _, _, _, _, _, _ => { model := "bad-op", verdict := "skip" }
   | ["resp", c, _ck] =>
     match unrle c with
     | some conn => runResp conn impl
